@@ -19,17 +19,16 @@ const POINTS: [&str; 6] = ["search.enter", "search.armed", "search.iter_done", "
 
 #[derive(Clone, Copy, Debug, PartialEq, Eq)]
 enum SearchState {
-    None,
     /// held at POINTS[k], arrival number n of that label
     Held(usize, u64),
-    /// running without a hold ahead of it that it can reach on its own (unbounded, not stopped)
-    Free,
+    /// released but never seen again (a lost stop, an unbounded search nobody can end)
+    Lost,
     Gone,
 }
 
 #[derive(Clone, Copy, Debug, PartialEq, Eq)]
 enum Action {
-    ReleaseSearch,
+    ReleaseSearch(usize),
     SendNext,
 }
 
@@ -45,134 +44,154 @@ pub struct Observation {
     pub machinery: Option<String>,
 }
 
+struct Search {
+    state: SearchState,
+    bounded: bool,
+    stop_seen: bool,
+    printed: bool,
+    first_iteration_done: bool,
+    root: super::oracle::Pos,
+}
+
 struct Run<'a> {
     e: Engine,
     script: &'a [String],
     next_cmd: usize,
-    search: SearchState,
-    searches_started: u64,
-    bounded: bool,
-    stop_sent: bool,
-    bestmove_printed: bool,
-    iter_base: u64,
+    searches: Vec<Search>,
+    /// `go`s that were refused while a search was genuinely running (allowed: no answer owed)
+    refused_while_running: usize,
     input_blocked_in_join: bool,
+    /// event counts / spawn count at the moment the joining go was sent
+    pending_before: Vec<u64>,
+    pending_spawned: u64,
     wait_inputs: u64,
     model: Model,
-    roots: Vec<super::oracle::Pos>,
     obs: Observation,
 }
 
 const ARRIVE: Duration = Duration::from_secs(10);
 
 impl<'a> Run<'a> {
+    fn alive(&self) -> usize {
+        self.searches.iter().filter(|s| s.state != SearchState::Gone).count()
+    }
+
     fn enabled(&self) -> Vec<Action> {
         let mut v = vec![];
-        match self.search {
-            // an unbounded search that has not been stopped stays at its first iteration
-            // boundary: letting it run free would make everything after it a race. A stop
-            // that arrives "in the middle of the search" is the stop sent in this state (the
-            // flag is only read at polls, and the next poll sees it either way).
-            SearchState::Held(2, _) if !self.bounded && !self.stop_sent => {}
-            SearchState::Held(..) => v.push(Action::ReleaseSearch),
-            _ => {}
+        for (i, s) in self.searches.iter().enumerate() {
+            match s.state {
+                // an unbounded search that has not been stopped stays at its first iteration
+                // boundary: letting it run free would make everything after it a race. A stop
+                // that arrives "in the middle of the search" is the stop sent in this state (the
+                // flag is only read at polls, and the next poll sees it either way).
+                SearchState::Held(2, _) if !s.bounded && !s.stop_seen => {}
+                SearchState::Held(..) => v.push(Action::ReleaseSearch(i)),
+                _ => {}
+            }
         }
         if !self.input_blocked_in_join && self.next_cmd < self.script.len() {
             let cmd = &self.script[self.next_cmd];
-            let is_go = cmd.starts_with("go");
-            // GUI protocol: a new go only after the previous search's bestmove has been printed
-            let ok = !is_go || self.searches_started == 0 || self.bestmove_printed;
-            if ok {
+            // GUI protocol: a new go only after the previous search's bestmove has been printed;
+            // `go! ...` is a go the GUI sends regardless (the engine may refuse it while a search
+            // is running, but must stay consistent)
+            let ok = !cmd.starts_with("go ") && cmd != "go" || self.searches.iter().all(|s| s.printed || s.state == SearchState::Lost);
+            if ok || cmd.starts_with("go!") {
                 v.push(Action::SendNext);
             }
         }
         v
     }
 
-    /// Waits for the search thread to arrive at its next hold point (or to be gone).
-    fn await_search(&mut self, after_point: Option<usize>) {
-        // which labels can it arrive at next?
-        let candidates: Vec<usize> = match after_point {
-            None => vec![0],
-            Some(2) => vec![3],       // after the first iter_done the hold on iter_done is lifted
-            Some(1) => vec![2, 3],    // armed -> first iteration done, or straight to bestmove when cut
-            Some(5) => vec![],
-            Some(k) => vec![k + 1],
-        };
-        if candidates.is_empty() {
-            // released from search.exit: "gone" means the OS thread has really exited (this is
-            // what JoinHandle::is_finished reports); wait for that so the state is well defined
+    fn counts(&mut self) -> Vec<u64> {
+        POINTS.iter().map(|l| self.e.event_count(l)).collect()
+    }
+
+    /// Waits for search `i` (the only thread that is running) to arrive at its next hold point.
+    fn await_search(&mut self, i: usize, before: &[u64], after_exit: bool) {
+        if after_exit {
+            // "gone" means the OS thread has really exited (this is what JoinHandle::is_finished
+            // reports); when the input thread is joining it, the join itself is that synchronisation
+            let expect = self.alive(); // input thread + the other live searches
             let began = std::time::Instant::now();
-            // (when the input thread is joining it, the join itself is that synchronisation)
-            while !self.input_blocked_in_join && self.e.thread_count() > 1 {
+            while !self.input_blocked_in_join && self.e.thread_count() > expect {
                 if began.elapsed() > ARRIVE {
                     self.obs.machinery = Some("search thread did not exit after search.exit was released".into());
                     break;
                 }
                 std::thread::sleep(Duration::from_micros(200));
             }
-            self.search = SearchState::Gone;
+            self.searches[i].state = SearchState::Gone;
             return;
         }
+        let must_end = self.searches[i].stop_seen || self.searches[i].bounded;
+        let limit = if self.searches[i].stop_seen { Duration::from_secs(5) } else { ARRIVE };
         let began = std::time::Instant::now();
+        let mut before: Vec<u64> = before.to_vec();
         loop {
-            for &k in &candidates {
-                let n = self.e.event_count(POINTS[k]);
-                let expected = if k == 2 { self.iter_base + 1 } else { self.searches_started };
-                if n >= expected && !self.already_released(k, n) {
-                    self.search = SearchState::Held(k, n);
-                    if k == 4 {
-                        self.bestmove_printed = true;
-                    }
-                    return;
+            let now = self.counts();
+            if let Some(k) = (0..POINTS.len()).find(|k| now[*k] > before[*k]) {
+                if k == 2 && self.searches[i].first_iteration_done {
+                    // a later iteration boundary: passed through without a hold, keep waiting
+                    before[2] = now[2];
+                    continue;
                 }
+                self.searches[i].state = SearchState::Held(k, now[k]);
+                if k == 4 {
+                    self.searches[i].printed = true;
+                }
+                return;
             }
-            let limit = if self.stop_sent { Duration::from_secs(5) } else { ARRIVE };
             if began.elapsed() > limit {
-                if self.stop_sent || self.bounded {
+                if must_end {
                     self.obs.complaints.push(format!(
-                        "search thread did not reach {} within {} s although {}",
-                        candidates.iter().map(|k| POINTS[*k]).collect::<Vec<_>>().join(" / "),
+                        "search #{} did not reach its next step within {} s although {}",
+                        i + 1,
                         limit.as_secs(),
-                        if self.stop_sent { "stop had been processed" } else { "the search is bounded" }
+                        if self.searches[i].stop_seen { "stop had been processed" } else { "it is bounded" }
                     ));
                 }
-                self.search = SearchState::Free;
+                self.searches[i].state = SearchState::Lost;
                 return;
             }
             self.e.settle(Duration::from_micros(500));
         }
     }
 
-    fn already_released(&self, k: usize, n: u64) -> bool {
-        self.obs.trace.iter().any(|t| *t == format!("release {} {n}", POINTS[k]))
-    }
-
-    fn release(&mut self) {
-        let SearchState::Held(k, n) = self.search else { return };
-        if k == 2 {
-            // lift the hold on later iterations before letting the thread go
-            if let Some(d) = &self.e.sched {
-                let _ = std::fs::remove_file(d.join("hold.search.iter_done"));
+    fn release(&mut self, i: usize) {
+        let SearchState::Held(k, n) = self.searches[i].state else { return };
+        if let Some(d) = &self.e.sched {
+            // the hold on iteration boundaries is for a thread's FIRST boundary only
+            let hold = d.join("hold.search.iter_done");
+            if k < 2 && !self.searches[i].first_iteration_done {
+                let _ = std::fs::write(&hold, b"");
+            } else {
+                let _ = std::fs::remove_file(&hold);
             }
         }
+        if k == 2 {
+            self.searches[i].first_iteration_done = true;
+        }
+        let before = self.counts();
         self.obs.trace.push(format!("release {} {n}", POINTS[k]));
         self.e.release(POINTS[k], n);
-        self.await_search(Some(k));
+        self.await_search(i, &before, k == 5);
     }
 
     fn send_next(&mut self) {
-        let cmd = self.script[self.next_cmd].clone();
+        let raw = self.script[self.next_cmd].clone();
         self.next_cmd += 1;
+        let cmd = raw.replacen("go!", "go", 1);
         self.obs.trace.push(format!("send {cmd}"));
         let is_go = cmd.starts_with("go");
+        let searching = self.searches.iter().any(|s| !s.printed && s.state != SearchState::Gone && s.state != SearchState::Lost);
         if is_go {
             if let Some(d) = &self.e.sched {
                 let _ = std::fs::write(d.join("hold.search.iter_done"), b"");
             }
-            // iterations already reported by earlier searches (they are past their bestmove)
-            self.iter_base = self.e.event_count("search.iter_done");
         }
         let joins_before = self.e.event_count("uci.go_join");
+        let spawned_before = self.e.event_count("uci.go_spawned");
+        let before = self.counts();
         if !self.e.send(&cmd) {
             self.obs.complaints.push(format!("engine no longer accepts input at '{cmd}'"));
             return;
@@ -187,6 +206,8 @@ impl<'a> Run<'a> {
             }
             if is_go && self.e.event_count("uci.go_join") > joins_before {
                 self.input_blocked_in_join = true;
+                self.pending_before = before.clone();
+                self.pending_spawned = spawned_before;
                 self.obs.trace.push("input thread joins the previous search thread".into());
                 break;
             }
@@ -194,14 +215,14 @@ impl<'a> Run<'a> {
                 if !self.e.alive() {
                     self.obs.complaints.push(format!("engine died while processing '{cmd}'"));
                 } else {
-                    self.obs.machinery = Some(format!("input thread did not finish '{cmd}' within {} s (search state {:?})", ARRIVE.as_secs(), self.search));
+                    self.obs.machinery = Some(format!("input thread did not finish '{cmd}' within {} s", ARRIVE.as_secs()));
                 }
                 return;
             }
             self.e.settle(Duration::from_micros(500));
         }
         if cmd == "isready" {
-            // the answer is printed before the loop returns to uci.wait_input; allow 2 s anyway
+            // the answer is printed before the loop returns to uci.wait_input; allow 5 s anyway
             let want = self.script[..self.next_cmd].iter().filter(|c| *c == "isready").count();
             let began = std::time::Instant::now();
             loop {
@@ -216,27 +237,40 @@ impl<'a> Run<'a> {
             }
         }
         if cmd == "stop" {
-            self.stop_sent = true;
+            // a stop ends the running search: every search alive now is expected to wind up
+            for s in self.searches.iter_mut() {
+                if s.state != SearchState::Gone {
+                    s.stop_seen = true;
+                }
+            }
         }
         if is_go && !self.input_blocked_in_join {
-            self.after_go_accepted(&cmd);
+            self.after_go(&cmd, spawned_before, &before, searching);
         }
         if !is_go {
             self.model.apply(&cmd);
         }
     }
 
-    fn after_go_accepted(&mut self, cmd: &str) {
-        // was a search thread really started?
-        let spawned = self.e.event_count("uci.go_spawned");
-        if spawned > self.searches_started {
-            self.searches_started = spawned;
-            self.roots.push(self.model.pos.clone());
-            self.bounded = super::session::go_bounded(cmd);
-            self.stop_sent = false;
-            self.bestmove_printed = false;
-            self.search = SearchState::None;
-            self.await_search(None);
+    fn after_go(&mut self, cmd: &str, spawned_before: u64, before: &[u64], searching: bool) {
+        if self.e.event_count("uci.go_spawned") > spawned_before {
+            self.searches.push(Search {
+                state: SearchState::Lost,
+                bounded: super::session::go_bounded(cmd),
+                stop_seen: false,
+                printed: false,
+                first_iteration_done: false,
+                root: self.model.pos.clone(),
+            });
+            let i = self.searches.len() - 1;
+            self.await_search(i, before, false);
+            if self.searches[i].state == SearchState::Lost {
+                self.obs.machinery = Some("a started search thread never reached search.enter".into());
+            }
+        } else if searching {
+            // refused while a search was genuinely running: allowed, no answer is owed
+            self.refused_while_running += 1;
+            self.obs.trace.push("refused: a search is running".into());
         } else {
             self.obs.complaints.push(format!("'{cmd}' did not start a search (the go was dropped)"));
         }
@@ -254,9 +288,9 @@ impl<'a> Run<'a> {
         self.obs.choice_points.push(en.len());
         self.obs.choices.push(choice);
         match en[choice] {
-            Action::ReleaseSearch => {
-                self.release();
-                if self.input_blocked_in_join && self.search == SearchState::Gone {
+            Action::ReleaseSearch(i) => {
+                self.release(i);
+                if self.input_blocked_in_join && self.searches[i].state == SearchState::Gone {
                     // the join can complete now: the go handler goes on to spawn the new search
                     let began = std::time::Instant::now();
                     while self.e.event_count("uci.wait_input") <= self.wait_inputs {
@@ -268,8 +302,17 @@ impl<'a> Run<'a> {
                     }
                     self.wait_inputs += 1;
                     self.input_blocked_in_join = false;
-                    let cmd = self.script[self.next_cmd - 1].clone();
-                    self.after_go_accepted(&cmd);
+                    let cmd = self.script[self.next_cmd - 1].replacen("go!", "go", 1);
+                    // the new thread may already have arrived: compare against the counts at send time
+                    // (minus the steps the old thread made since, which are in its own state)
+                    let mut before = self.pending_before.clone();
+                    let now = self.counts();
+                    // the old thread's later arrivals (after_bestmove / exit) are not the new thread's
+                    for k in 1..POINTS.len() {
+                        before[k] = now[k];
+                    }
+                    let spawned = self.pending_spawned;
+                    self.after_go(&cmd, spawned, &before, false);
                 }
             }
             Action::SendNext => self.send_next(),
@@ -294,16 +337,13 @@ pub fn execute(script: &[String], prefix: &[usize], id: u64) -> Observation {
         e,
         script,
         next_cmd: 0,
-        search: SearchState::None,
-        searches_started: 0,
-        bounded: false,
-        stop_sent: false,
-        bestmove_printed: false,
-        iter_base: 0,
+        searches: vec![],
+        refused_while_running: 0,
         input_blocked_in_join: false,
+        pending_before: vec![],
+        pending_spawned: 0,
         wait_inputs: 0,
         model: Model::new(),
-        roots: vec![],
         obs: Observation::default(),
     };
     // the loop announces itself once before the first command
@@ -319,42 +359,48 @@ pub fn execute(script: &[String], prefix: &[usize], id: u64) -> Observation {
             break;
         }
         k += 1;
-        if k > 200 {
-            r.obs.machinery = Some("schedule longer than 200 steps".into());
+        if k > 300 {
+            r.obs.machinery = Some("schedule longer than 300 steps".into());
             break;
         }
     }
     if r.obs.machinery.is_none() {
-        // end of schedule: a free-running unbounded search whose stop was lost never answers
-        if r.search == SearchState::Free && r.stop_sent {
-            // already complained in await_search
-        }
         r.e.settle(Duration::from_millis(30));
         let lines = r.e.lines();
         r.obs.bestmoves = lines.iter().filter(|l| l.starts_with("bestmove")).cloned().collect();
         r.obs.readyoks = lines.iter().filter(|l| *l == "readyok").count();
         r.obs.errors = r.e.err.iter().filter(|l| l.contains("Failed to") || l.contains("panicked")).cloned().collect();
-        let gos = script.iter().filter(|c| c.starts_with("go")).count();
         let readys = script.iter().filter(|c| *c == "isready").count();
         if r.next_cmd == script.len() {
-            if r.obs.bestmoves.len() != gos {
-                r.obs.complaints.push(format!("{} go commands but {} bestmove lines", gos, r.obs.bestmoves.len()));
+            // every accepted go is owed exactly one bestmove
+            if r.obs.bestmoves.len() != r.searches.len() {
+                r.obs.complaints.push(format!("{} searches were started but {} bestmove lines were printed", r.searches.len(), r.obs.bestmoves.len()));
             }
             if r.obs.readyoks != readys {
                 r.obs.complaints.push(format!("{} isready but {} readyok", readys, r.obs.readyoks));
             }
-        } else {
-            r.obs.complaints.push(format!("script stuck before '{}' (no action enabled; search {:?})", script[r.next_cmd], r.search));
-        }
-        for (n, bm) in r.obs.bestmoves.iter().enumerate() {
-            if let Some(root) = r.roots.get(n) {
-                let mv = bm.split_whitespace().nth(1).unwrap_or("");
-                if !super::searchrun::legal_uci(root).iter().any(|m| m == mv) {
-                    r.obs.complaints.push(format!("'{bm}' is not legal in the position of go #{} ({})", n + 1, root.fen()));
+            for (i, s) in r.searches.iter().enumerate() {
+                if s.state != SearchState::Gone {
+                    r.obs.complaints.push(format!("search #{} is still running at the end of the script (state {:?})", i + 1, s.state));
                 }
             }
+        } else {
+            r.obs.complaints.push(format!("script stuck before '{}' (no action enabled)", script[r.next_cmd]));
         }
+        // the k-th printed bestmove answers the k-th started search only when searches never
+        // overlap; with overlapping searches every bestmove must at least be legal for some root
+        for bm in r.obs.bestmoves.iter() {
+            let mv = bm.split_whitespace().nth(1).unwrap_or("");
+            if !r.searches.iter().any(|s| super::searchrun::legal_uci(&s.root).iter().any(|m| m == mv)) {
+                r.obs.complaints.push(format!("'{bm}' is not legal in the position of any go of this session"));
+            }
+        }
+        let mut allowed_refusals = r.refused_while_running;
         for e in &r.obs.errors {
+            if e.contains("Search is already running") && allowed_refusals > 0 {
+                allowed_refusals -= 1;
+                continue;
+            }
             r.obs.complaints.push(format!("engine reported: {e}"));
         }
         r.e.send("quit");
@@ -378,6 +424,12 @@ pub fn scripts() -> Vec<(&'static str, Vec<String>)> {
         ("go-stop-go-bounded", v(&["go depth 1", "stop", "go depth 1"])),
         ("go-ucinewgame-stop", v(&["go infinite", "ucinewgame", "stop", "isready"])),
         ("double-stop", v(&["go infinite", "stop", "stop", "go depth 1"])),
+        // the side to move is in check: the first generated pseudo-legal move is not legal
+        ("in-check-go-stop", v(&["position fen 4k3/8/8/8/1b6/8/8/R3K2R w KQ - 0 1", "go infinite", "stop"])),
+        ("in-check-b-go-stop", v(&["position startpos moves e2e4 d7d5 f1b5", "go infinite", "stop", "go depth 1"])),
+        // a go the GUI sends although a search is running: it may be refused, nothing else may break
+        ("go-go!-go!-stop", v(&["go infinite", "go! depth 1", "go! depth 1", "stop", "isready"])),
+        ("go-go!-stop-go", v(&["go infinite", "go! infinite", "stop", "go depth 1"])),
     ]
 }
 
